@@ -19,7 +19,7 @@ EXHAUSTIVE_NOTE = ("exhaustive over the single-fault space of each sampled workl
                    "fault-free control run x every applicable environment fault, and every document fault x every position "
                    "of the rule where it applies (capped at 6 positions per fault kind and item shape); the workloads are sampled")
 TIERS = {
-    "quick": {"runs": 288, "budget_s": 150, "chunk": 3, "max_shrink": 4, "shrink_each_s": 15, "shrink_budget_s": 60},
+    "quick": {"runs": 208, "budget_s": 150, "chunk": 3, "max_shrink": 4, "shrink_each_s": 15, "shrink_budget_s": 60},
     "thorough": {"runs": 12000, "budget_s": 3000, "chunk": 6, "max_shrink": 8, "shrink_each_s": 30, "shrink_budget_s": 300},
 }
 CHILD_TIMEOUT = {"quick": 30, "thorough": 60}
@@ -254,7 +254,8 @@ def run_one(index, seed, runner, tier, opts):
             counters["tolerated_found"][label] = counters["tolerated_found"].get(label, 0) + 1
         else:
             counters["outcome"]["silent"] += 1
-            case = {"files": {k: util.enc_content(v) for k, v in files.items()}, "ops": [fop], "extra": {"info": info}}
+            case = {"files": {k: util.enc_content(v) for k, v in files.items()}, "ops": [fop],
+                    "extra": {"info": info, "no_yaml_shrink": f["label"].startswith("D:")}}
             violations.append({"case": case, "violation": _violation(f, fop, oc, info)})
         if sample is None and cls == "loud" and f["label"].startswith("D:"):
             sample = {"run": index, "seed": seed, "workload": wclass, "features": info["features"], "rule": files["rule.yaml"][:600],
